@@ -240,7 +240,7 @@ func (b *tableParagraphTransformer) parseRow(segment text.Segment,
 		row.AppendChild(row, node)
 		pos = closure + 1
 	}
-	for ; i < len(alignments); i++ {
+	for ; !isHeader && i < len(alignments); i++ {
 		row.AppendChild(row, ast.NewTableCell())
 	}
 	return row
